@@ -39,6 +39,8 @@ Objective = obj_module.Objective
 LOCKS = collections.defaultdict(lambda: threading.Lock())
 # Map each `Oracle` instance to the thread name aquired the `Lock`.
 THREADS = collections.defaultdict(lambda: None)
+# Guards the creation of the per-`Oracle` locks in `LOCKS`.
+LOCKS_GUARD = threading.Lock()
 
 
 @keras_tuner_export("keras_tuner.synchronized")
@@ -103,14 +105,16 @@ def synchronized(func, *args, **kwargs):
         need_acquire = THREADS[oracle] != thread_name
 
         if need_acquire:
-            LOCKS[oracle].acquire()
+            with LOCKS_GUARD:
+                lock = LOCKS[oracle]
+            lock.acquire()
             THREADS[oracle] = thread_name
         try:
             ret_val = func(*args, **kwargs)
         finally:
             if need_acquire:
                 THREADS[oracle] = None
-                LOCKS[oracle].release()
+                lock.release()
         return ret_val
 
     return wrapped_func
